@@ -128,8 +128,34 @@ impl CssTree {
 
         let parent_children = self.parent_to_child.get(parent_idx).unwrap();
 
-        // todo: we shouldn't take into account children that are invisible
-        parent_children.last() != Some(&child)
+        // siblings that will not be emitted (e.g. the still empty copy of an at-rule
+        // made for `@at-root`) don't count
+        parent_children
+            .iter()
+            .skip_while(|&&sibling| sibling != child)
+            .skip(1)
+            .any(|&sibling| !self.is_invisible(sibling))
+    }
+
+    /// Whether the node at `idx` will produce no output, judged on the tree as
+    /// built so far (children live in `parent_to_child` until `finish`).
+    fn is_invisible(&self, idx: CssTreeIdx) -> bool {
+        let children_invisible = || {
+            self.parent_to_child
+                .get(&idx)
+                .map_or(true, |children| children.iter().all(|&c| self.is_invisible(c)))
+        };
+
+        match &*self.get(idx) {
+            None => true,
+            Some(CssStmt::RuleSet { selector, .. }) => {
+                selector.is_invisible() || children_invisible()
+            }
+            Some(CssStmt::Media(..) | CssStmt::Supports(..) | CssStmt::KeyframesRuleSet(..)) => {
+                children_invisible()
+            }
+            Some(stmt) => stmt.is_invisible(),
+        }
     }
 
     pub fn add_stmt(&mut self, child: CssStmt, parent: Option<CssTreeIdx>) -> CssTreeIdx {
